@@ -409,10 +409,23 @@ fn zero_case<T: Sc>(rng: &mut Rng, case: u64, out: &mut CaseOut) {
                     let kappa = v.kappa();
                     let tol = TAU_TWIN * T::EPS * (kappa * la::norm2(ca.col(s)) + kappa * kappa * rn / v.sigma1() + kappa * la::norm2(yw.col(s)) / v.sigma1());
                     let ratio = la::norm2(&dc) / tol.max(f64::MIN_POSITIVE);
-                    out.ratio("rows_removed_coefficients", ratio);
-                    if !(ratio <= 1.0) {
-                        violation(out, stream, case, format!("removing zero-weight samples changes the coefficients: ratio {ratio:.3e}"), json!({"problem": spec.to_json(), "alpha": alpha}));
-                        return;
+                    if ratio <= 1.0 {
+                        out.ratio("rows_removed_coefficients", ratio);
+                    } else {
+                        // the two twins decompose *different* matrices here (zero rows vs removed rows): an
+                        // inaccurate decomposition of either one (KF-1) explains a disagreement
+                        let e1 = crate::oracle::dependency_svd_error_at::<T>(&spec, &alpha).unwrap_or(f64::INFINITY);
+                        let e2 = crate::oracle::dependency_svd_error_at::<T>(&spec3, &alpha).unwrap_or(f64::INFINITY);
+                        let e = e1.max(e2);
+                        let adj = ratio * T::EPS / (T::EPS + e);
+                        if e > crate::oracle::KF1_MIN_E * T::EPS && adj <= 1.0 {
+                            out.known.push(KnownHit { stream: stream.into(), case, signature: "KF-1:svd-reconstruction-error".into(),
+                                what: format!("coefficients with zero-weight rows vs rows removed differ (ratio {ratio:.3e}), explained by the measured SVD reconstruction error e={e:.3e}"),
+                                detail: json!({"problem": spec.to_json(), "alpha": alpha, "e": e}) });
+                        } else {
+                            violation(out, stream, case, format!("removing zero-weight samples changes the coefficients: ratio {ratio:.3e} (dependency SVD error {e:.2e})"), json!({"problem": spec.to_json(), "alpha": alpha}));
+                            return;
+                        }
                     }
                 }
             }
@@ -430,11 +443,11 @@ pub fn run(ctx: &Ctx) {
     ctx.rule("prescaled-twin: weighted problem A vs unweighted problem B over the wrapper model diag(w)·Phi, diag(w)·D_k and data diag(w)·Y, same alpha-history (1..6 wide updates), compared per step and per column in coefficients, residuals and Jacobian with kappa-scaled tolerances (bitwise agreement recorded); weight classes positive / negative / mixed sign / with zeros / spread over up to six decades. prescaled-fit: both twins fitted with the same optimizer (trajectories, terminations, fitted alpha, reduced chi2, covariance). unit-vs-none: outputs numerically equal. zero-weights: other data at zero-weight rows leave every output numerically equal; rows removed give the same coefficients. non-trivial = residual > 1e-3 |Y_w| and non-constant weights; distinct = (problem, alpha)");
     ctx.assume("the confidence band is deliberately not compared between twins (it uses the unweighted Jacobian by definition)");
     let t = ctx.tier;
-    let b = t.pick(15.0, 150.0);
-    ctx.run_cases("prescaled-twin", t.pick(6000, 40000), b, |r, c, o| if c % 3 == 0 { twin_case::<f32>(r, c, o) } else { twin_case::<f64>(r, c, o) });
-    ctx.run_cases("rank-deficient", t.pick(2000, 8000), b, |r, c, o| if c % 3 == 0 { rankdef_case::<f32>(r, c, o) } else { rankdef_case::<f64>(r, c, o) });
-    ctx.run_cases("scaled-weights-default-threshold", t.pick(3000, 12000), b, |r, c, o| if c % 3 == 0 { scaled_weights_case::<f32>(r, c, o) } else { scaled_weights_case::<f64>(r, c, o) });
-    ctx.run_cases("prescaled-fit", t.pick(2500, 10000), b, |r, c, o| if c % 4 == 0 { fit_twin_case::<f32>(r, c, o) } else { fit_twin_case::<f64>(r, c, o) });
-    ctx.run_cases("unit-vs-none", t.pick(1500, 8000), b, |r, c, o| if c % 3 == 0 { unit_case::<f32>(r, c, o) } else { unit_case::<f64>(r, c, o) });
-    ctx.run_cases("zero-weights", t.pick(2000, 10000), b, |r, c, o| if c % 3 == 0 { zero_case::<f32>(r, c, o) } else { zero_case::<f64>(r, c, o) });
+    let b = t.pick(30.0, 900.0);
+    ctx.run_cases("prescaled-twin", t.pick(6000, 320000), b, |r, c, o| if c % 3 == 0 { twin_case::<f32>(r, c, o) } else { twin_case::<f64>(r, c, o) });
+    ctx.run_cases("rank-deficient", t.pick(2000, 64000), b, |r, c, o| if c % 3 == 0 { rankdef_case::<f32>(r, c, o) } else { rankdef_case::<f64>(r, c, o) });
+    ctx.run_cases("scaled-weights-default-threshold", t.pick(3000, 96000), b, |r, c, o| if c % 3 == 0 { scaled_weights_case::<f32>(r, c, o) } else { scaled_weights_case::<f64>(r, c, o) });
+    ctx.run_cases("prescaled-fit", t.pick(2500, 80000), b, |r, c, o| if c % 4 == 0 { fit_twin_case::<f32>(r, c, o) } else { fit_twin_case::<f64>(r, c, o) });
+    ctx.run_cases("unit-vs-none", t.pick(1500, 64000), b, |r, c, o| if c % 3 == 0 { unit_case::<f32>(r, c, o) } else { unit_case::<f64>(r, c, o) });
+    ctx.run_cases("zero-weights", t.pick(2000, 80000), b, |r, c, o| if c % 3 == 0 { zero_case::<f32>(r, c, o) } else { zero_case::<f64>(r, c, o) });
 }
